@@ -239,20 +239,29 @@ def extra_models(fx):
     return out
 
 
+@common.job
 def _job(job):
     kind, items = job
     sp = families.ops_lang()
     stats, viols = {}, []
     if kind == 'hist':
-        system = engine_hist._system(c07.make_system, ('OPS',))
-        for hist in items:
+        lname, hists = items
+        system = engine_hist._system(c07.make_system, (lname,))
+        for hist in hists:
             c = engine_hist.replay(system, hist)
-            viols += check_model(system.fx, c.model, {'source': 'history', 'history': [list(h) for h in hist]}, stats)
+            viols += check_model(system.fx, c.model, {'source': 'history', 'language': lname, 'history': [list(h) for h in hist]}, stats)
             stats['models'] = stats.get('models', 0) + 1
     elif kind == 'extra':
         fx = langs.fixture(sp)
         for variant, m in extra_models(fx):
             viols += check_model(fx, m, {'source': 'extra', 'variant': variant}, stats)
+            stats['models'] = stats.get('models', 0) + 1
+        # languages with re-used field names / two inheritance levels below the declared association ends
+        from .. import modelgen
+        for k, (lname, pm) in enumerate(c07.extra_plain_models()):
+            fx2 = langs.fixture(c07.lang_spec(lname))
+            m, _objs = modelgen.build(fx2, pm)
+            viols += check_model(fx2, m, {'source': 'extra', 'variant': f'{lname}#{k}', 'model': pm.describe()}, stats)
             stats['models'] = stats.get('models', 0) + 1
     else:
         arg, hists = items
@@ -273,18 +282,11 @@ def run(tier, seed):
                 'every attack-graph state of the C09 search is ingested and compared node by node and edge by edge')
     depth, K = (3, 1) if tier == 'quick' else (4, 1)
     scratch = common.Result(PROP, tier, seed, 'model_checking')
-    reps = engine_hist.explore(c07.make_system, ('OPS',), depth, K, scratch, seed, label=f'[OPS,D{depth},K{K}]')
-    system = engine_hist._system(c07.make_system, ('OPS',))
-    sp = families.ops_lang()
-    by_content = {}
-    for k in sorted(reps):
-        hist = reps[k][0]
-        c = engine_hist.replay(system, hist)
-        key = json.dumps(c07.content(c.model, sp), sort_keys=True, default=repr)
-        if key not in by_content or len(hist) < len(by_content[key]):
-            by_content[key] = hist
-    hists = common.rotate([by_content[k] for k in sorted(by_content)], seed)
-    jobs = [('hist', hists[i:i + 16]) for i in range(0, len(hists), 16)] + [('extra', None)]
+    from . import c18
+    hists = c18.distinct_histories('OPS', depth, K, scratch, seed)
+    jobs = [('hist', ('OPS', hists[i:i + 16])) for i in range(0, len(hists), 16)] + [('extra', None)]
+    h2 = c18.distinct_histories('OPS2', depth, 0, scratch, seed)
+    jobs += [('hist', ('OPS2', h2[i:i + 16])) for i in range(0, len(h2), 16)]
     gdepth = 2 if tier == 'quick' else 3
     for arg in (('GOPS', 'all'), ('GOPS2', 'all')):
         greps = engine_hist.explore(c09.make_system, arg, gdepth, 1, scratch, seed, shard=16, label=f'[{arg[0]},graphs,D{gdepth}]')
@@ -309,7 +311,7 @@ def replay(path):
     c = j['case']
     sp = families.ops_lang()
     if c['source'] == 'history':
-        system = c07.make_system(('OPS',))
+        system = c07.make_system((c.get('language', 'OPS'),))
         hist = tuple(tuple(c07._t(x) for x in op) for op in c['history'])
         ctx = engine_hist.replay(system, hist)
         vs = check_model(system.fx, ctx.model, c, {})
@@ -319,6 +321,8 @@ def replay(path):
         for variant, m in extra_models(fx):
             if variant == c['variant']:
                 vs = check_model(fx, m, c, {})
+        if '#' in c['variant']:
+            _stats, vs = _job(('extra', None))
     else:
         system = c09.make_system(eval(c['system']))
         hist = tuple(tuple(c09._t(x) for x in op) for op in c['history'])
